@@ -66,8 +66,19 @@ def check_gate(program, rep):
             n_q += 1
             cn = e.sym.node
             want = f'({ev}, {va}, {kw})'
-            if cn.func.attr != 'append' or not cn.args or norm(
-                    cn.args[0]) != want or fl is not False or delivered:
+            item_ok = bool(cn.args) and norm(cn.args[0]) == want
+            if cn.args and isinstance(cn.args[0], ast.Call) and not \
+                    cn.args[0].keywords and [norm(x)
+                                             for x in cn.args[0].args] == [
+                        ev, va, kw]:
+                # a tuple-like record (NamedTuple) built from the same three
+                rc = program.lookup_class(f.module, dotted(cn.args[0].func)
+                                          or '')
+                if rc is not None and any('NamedTuple' in b or 'tuple' in b
+                                          for b in rc.ext_bases):
+                    item_ok = True
+            if cn.func.attr != 'append' or not item_ok or fl is not False \
+                    or delivered:
                 bad_queue = e
         if conds.get(f'{ev} in {EVENTS}') is False and (delivered or queued):
             bad_unknown = (delivered or queued)[0][0]
